@@ -31,91 +31,140 @@ def _is_own_class(model, fn, expr):
                                                   and M.norm(x.value) in ('type(self)', 'self.__class__')}, 'classattr': {}}) in ('type(self)', 'cls')
 
 
+class ClassObjHooks(A.Hooks):
+    """Classes as heap objects: type(x) gives the object's class object; vars(C) is C's own dictionary; getattr / hasattr /
+    setattr on a class object follow Python (own dictionary first, then the base classes, stores into the own dictionary)."""
+    def __init__(self, model, cls):
+        self.model, self.cls = model, cls
+
+    @staticmethod
+    def _lookup(c, name):
+        while isinstance(c, A.Obj):
+            d = c.attrs.get('__vars')
+            if isinstance(d, dict) and name in d:
+                return (d[name],)
+            c = c.attrs.get('__base')
+        return None
+
+    def call(self, interp, node, fname, args, kwargs, state):
+        if fname == 'type' and len(args) == 1 and isinstance(args[0], A.Obj) and isinstance(args[0].attrs.get('__classobj'), A.Obj):
+            return args[0].attrs['__classobj']
+        if fname == 'vars' and len(args) == 1 and isinstance(args[0], A.Obj) and isinstance(args[0].attrs.get('__vars'), dict):
+            return args[0].attrs['__vars']
+        if fname in ('getattr', 'hasattr', 'setattr', 'delattr') and args and isinstance(args[0], A.Obj) and isinstance(args[0].attrs.get('__vars'), dict) \
+           and len(args) >= 2 and isinstance(args[1], str):
+            c, name = args[0], args[1]
+            if fname == 'setattr' and len(args) == 3:
+                c.attrs['__vars'][name] = args[2]
+                if name.isidentifier():
+                    c.attrs[name] = args[2]
+                return A.NONE
+            hit = self._lookup(c, name)
+            if fname == 'hasattr':
+                return hit is not None
+            if fname == 'getattr':
+                if hit is not None:
+                    return A.NONE if hit[0] is None else hit[0]
+                if len(args) == 3:
+                    return A.NONE if args[2] is None else args[2]
+                state.env['__exc'] = 'AttributeError'
+                return A.TOP
+        if fname == 'ismacro' and len(args) == 1:
+            return isinstance(args[0], A.Obj) and args[0].label.startswith('macro:')
+        if fname == 'macroName' and len(args) == 1 and isinstance(args[0], A.Obj) and args[0].label.startswith('macro:'):
+            return args[0].label[6:]
+        if re.match(r'(log|status|deflog)\.\w+$', fname):
+            return A.NONE
+        return None
+
+
+def class_objects(m, cls, args_base='', args_sub=''):
+    """Two class objects Base <- Sub of the repository class `cls` and one instance of each."""
+    def mk(label, base, own):
+        c = A.Obj('class:' + label, {'__vars': dict(own), '__base': base}, cls=cls)
+        c.attrs.update({k: v for k, v in own.items() if k.isidentifier()})
+        if base is not None:
+            for k, v in base.attrs.items():
+                if not k.startswith('__') and k not in c.attrs:
+                    c.attrs[k] = v               # inherited class attributes are visible on the subclass
+        c.attrs['__mro__'] = (c,) + (base.attrs['__mro__'] if base is not None else ())
+        c.attrs['__name__'] = label
+        return c
+    base = mk('Base', None, {'args': args_base, 'X': A.Obj('macro:X', {})})
+    sub = mk('Sub', base, {'args': args_sub, 'Y': A.Obj('macro:Y', {})} if args_sub is not None else {'Y': A.Obj('macro:Y', {})})
+    ib = A.Obj('a-Base', {'__classobj': base}, cls=cls)
+    isub = A.Obj('a-Sub', {'__classobj': sub}, cls=cls)
+    return base, sub, ib, isub
+
+
 def cache_rules(chk, m, rid):
-    R = chk.rule(rid, 'per-class memo tables (setattr(type(self), "@...", value)): read only through the class\'s own __dict__ '
-                 '(a subclass must not pick up the memo of its base class), and filled only with a value built in the same call '
-                 '(never an object shared with another class)', 4)
-    n = 0
-    for fn in E.all_functions(m):
-        if 'simpletal' in fn.fullname:
-            continue
-        sets = []
-        for c in M.calls_in(fn.node):
-            if M.call_name(c) == 'setattr' and len(c.args) == 3 and _is_own_class(m, fn, c.args[0]):
-                k = _const_str(fn, c.args[1])
-                if k is not None and k.startswith('@'):
-                    sets.append((c, k))
-        if not sets:
-            continue
-        n += 1
+    R = chk.rule(rid, 'per-class memo tables (Macro.arguments, Macro.locals) interpreted on two class objects Base <- Sub, the base class '
+                 'used first: the subclass gets its own table (not the object computed for the base class), stored in its own class '
+                 'dictionary; a second call gives the same object again; the table of the base class is left as it was', 3)
+    Macro = m.cls('plasTeX', 'Macro')
+    entries = []
+    for name in ('arguments', 'locals'):
+        fn = m.find_method(Macro, name)
+        need(fn is not None, 'Macro.%s not found' % name)
+        entries.append((name, fn))
         chk.analysed(fn)
-        keys = {k for c, k in sets}
-        # (a) reads
-        inherited = []
-        own = 0
-        set_lines = sorted(c.lineno for c, k in sets)
-        for c in M.calls_in(fn.node):
-            nm = M.call_name(c)
-            if nm in ('getattr', 'hasattr') and len(c.args) >= 2 and _is_own_class(m, fn, c.args[0]) and _const_str(fn, c.args[1]) in keys:
-                if not _dominated_by_set(fn, c, sets):
-                    inherited.append('%s at line %d' % (text(c), c.lineno))
-        for x in M.walk_no_nested(fn.node):
-            if isinstance(x, ast.Subscript) and _const_str(fn, x.slice) in keys and re.match(r'vars\(.+\)$|.+\.__dict__$', text(x.value)):
-                own += 1
-            if isinstance(x, ast.Compare) and _const_str(fn, x.left) in keys and any(re.match(r'vars\(.+\)$|.+\.__dict__$', text(c)) for c in x.comparators):
-                own += 1
-            if isinstance(x, ast.Call) and re.match(r'(vars\(.+\)|.+\.__dict__)\.get$', M.call_name(x)) and x.args and _const_str(fn, x.args[0]) in keys:
-                own += 1
-        chk.verdict(R, '%s reads its memo through the own class dictionary' % fn.fullname, not inherited and own > 0,
-                    '%s looks its per-class memo %s up with %s: attribute lookup follows the class hierarchy, so a class whose base '
-                    'class was used earlier in the process gets the table computed for the base class (e.g. eqnarray after '
-                    'eqnarray*, longtable after tabular)' % (fn.fullname, sorted(keys), inherited or 'no own-dictionary test'),
-                    chk.where(fn), 'own-dictionary reads: %d' % own)
-        # (b) freshness of the stored value
-        stale = []
-        for c, k in sets:
-            v = c.args[2]
-            if not _fresh(fn, v):
-                stale.append('%s <- %s' % (k, text(v)))
-        chk.verdict(R, '%s fills its memo with a value built in the call' % fn.fullname, not stale,
-                    '%s stores a value that was not built in this call in its per-class memo (%s): classes then share one '
-                    'mutable table' % (fn.fullname, stale), chk.where(fn), 'fresh values')
-    need(n >= 2, 'per-class memo functions (Macro.locals, Macro.arguments) not found')
 
+    def run(fn, me, extra):
+        h = ClassObjHooks(m, Macro)
+        h.keep = lambda ev: False
+        it = A.Interp(model=m, scope=fn, hooks=h, max_iter=40, exc_edges=False, inline=5, heap=True, precise_exc=True, max_states=20000)
+        env = {'self': me}
+        env.update(extra)
+        outs = it.run_function(fn, env=env)
+        if it.imprecise or it.unknown_branches:
+            raise Undetermined('; '.join(sorted(set(list(it.imprecise) + list(it.unknown_branches)))[:3]))
+        if len(outs) != 1:
+            raise Undetermined('%d outcomes' % len(outs))
+        return outs[0]
 
-def _fresh(fn, v, depth=0):
-    if isinstance(v, (ast.List, ast.Dict, ast.Set, ast.ListComp, ast.DictComp, ast.SetComp, ast.Tuple, ast.Constant)):
-        return True
-    if isinstance(v, ast.Call) and M.call_name(v) in ('list', 'dict', 'set', 'tuple', 'sorted') :
-        return True
-    if isinstance(v, ast.Name) and depth < 3:
-        vals = [x.value for x in M.walk_no_nested(fn.node) if isinstance(x, ast.Assign) and any(isinstance(t, ast.Name) and t.id == v.id for t in x.targets)]
-        return bool(vals) and all(_fresh(fn, x, depth + 1) for x in vals)
-    return False
+    class Undetermined(Exception):
+        pass
 
-
-def _dominated_by_set(fn, call, sets):
-    """Is `call` preceded, in its own statement list or an enclosing one, by a setattr of the memo?"""
-    from ..util import parent_map
-    pm = parent_map(fn.node)
-    set_stmts = set()
-    for c, k in sets:
-        n = c
-        while n is not None and not isinstance(n, ast.stmt):
-            n = pm.get(n)
-        set_stmts.add(n)
-    n = call
-    while n is not None and n is not fn.node:
-        parent = pm.get(n)
-        if isinstance(n, ast.stmt) and parent is not None:
-            for field in ('body', 'orelse', 'finalbody'):
-                lst = getattr(parent, field, None)
-                if isinstance(lst, list) and n in lst:
-                    for prev in lst[:lst.index(n)]:
-                        if prev in set_stmts:
-                            return True
-        n = parent
-    return False
+    def describe(name, v):
+        if name == 'arguments':
+            return 'a list of %d' % len(v) if isinstance(v, list) else repr(v)
+        return 'names %s' % sorted(v) if isinstance(v, dict) else repr(v)
+    for name, fn in entries:
+        key = '@' + name
+        for label, args_base, args_sub in (('both classes without arguments', '', ''),) + ((('the subclass inherits the argument string', '', None),) if name == 'arguments' else ()):
+            base, sub, ib, isub = class_objects(m, Macro, args_base, args_sub)
+            keep = {'__base': base, '__sub': sub, '__ib': ib, '__isub': isub}
+            inst = 'Macro.%s: %s' % (name, label)
+            try:
+                k1, s1, v1 = run(fn, ib, keep)
+                ib, isub, base, sub = s1.env['__ib'], s1.env['__isub'], s1.env['__base'], s1.env['__sub']
+                keep = {'__base': base, '__sub': sub, '__ib': ib, '__isub': isub, '__v1': v1}
+                k2, s2, v2 = run(fn, isub, keep)
+                ib, isub, base, sub, v1 = (s2.env[x] for x in ('__ib', '__isub', '__base', '__sub', '__v1'))
+                keep = {'__base': base, '__sub': sub, '__ib': ib, '__isub': isub, '__v1': v1, '__v2': v2}
+                k3, s3, v3 = run(fn, isub, keep)
+                base, sub, v1, v2 = (s3.env[x] for x in ('__base', '__sub', '__v1', '__v2'))
+            except Undetermined as e:
+                chk.undecided(R, inst, str(e), chk.where(fn))
+                continue
+            except AnalysisError as e:
+                chk.undecided(R, inst, str(e), chk.where(fn))
+                continue
+            want_desc = {'arguments': 'a list of 0', 'locals': None}[name]
+            facts = (k1, k2, k3,
+                     'the subclass has its own table' if (v2 is not v1 and isinstance(v2, (list, dict))) else 'the subclass got the table of the base class',
+                     'stored in the own class dictionary' if sub.attrs['__vars'].get(key) is v2 else 'not stored in the own class dictionary',
+                     'base class table kept' if base.attrs['__vars'].get(key) is v1 else 'base class table replaced',
+                     'second call gives the same table' if v3 is v2 else 'second call gives another table',
+                     describe(name, v1), describe(name, v2))
+            want = ('return', 'return', 'return', 'the subclass has its own table', 'stored in the own class dictionary', 'base class table kept',
+                    'second call gives the same table',
+                    'a list of 0' if name == 'arguments' else "names ['X']", 'a list of 0' if name == 'arguments' else "names ['X', 'Y']")
+            chk.decide(R, inst, {facts}, {want},
+                       'Macro.%s on an instance of Base, then twice on an instance of Sub(Base): %s; expected %s - attribute lookup follows the '
+                       'class hierarchy, so a class whose base class was used earlier in the process must not get the table computed for the '
+                       'base class (eqnarray after eqnarray*, longtable after tabular), and classes must not share one mutable table'
+                       % (name, facts, want), chk.where(fn))
 
 
 # ---------------------------------------------------------------------------
@@ -159,6 +208,8 @@ class TokenStreamHooks(SelfHooks):
             return A.Sym('rawstream')
         if fname == 'iter' and len(args) == 1 and isinstance(args[0], A.Sym) and args[0].label in ('rawstream', 'expandedstream'):
             return args[0]
+        if fname == 'iter' and len(node.args) == 1 and text(node.args[0]) in ('self', 'tex'):
+            return A.Sym('expandedstream')            # iter(self): the expanded stream (next(iter(self), default) reads one token)
         if fname == 'next' and args and isinstance(args[0], A.Sym) and args[0].label in ('rawstream', 'expandedstream'):
             items = self.raw if args[0].label == 'rawstream' else self.expanded
             pos = state.env.get('__pos', 0)
@@ -174,16 +225,20 @@ class TokenStreamHooks(SelfHooks):
                 return args[0].attrs['char']
             if isinstance(args[0], A.Inst) and args[0].args and isinstance(args[0].args[0], str):
                 return args[0].args[0]
+            if isinstance(args[0], A.Obj) and args[0].attrs.get('__args') and isinstance(args[0].attrs['__args'][0], str):
+                return args[0].attrs['__args'][0]          # (heap mode: a token object built from a character)
         return None
 
     def decide(self, interp, test, state):
         if isinstance(test, ast.Compare) and len(test.ops) == 1 and isinstance(test.ops[0], (ast.Eq, ast.NotEq, ast.In, ast.NotIn)):
             l = interp.ev(test.left, state)
             r = interp.ev(test.comparators[0], state)
-            if isinstance(r, A.Sym) and 'char' in r.attrs and isinstance(l, (str, A.Inst)):
+            if isinstance(r, A.Sym) and 'char' in r.attrs and (isinstance(l, (str, A.Inst)) or (isinstance(l, A.Obj) and l.attrs.get('__args'))):
                 l, r = r, l
             if isinstance(r, A.Inst) and r.args and isinstance(r.args[0], str):
                 r = r.args[0]          # a token object built from a character: Other('[')
+            if isinstance(r, A.Obj) and r.attrs.get('__args') and isinstance(r.attrs['__args'][0], str):
+                r = r.attrs['__args'][0]
             if isinstance(l, A.Sym) and 'char' in l.attrs and isinstance(r, (str, tuple, list)):
                 if isinstance(test.ops[0], (ast.Eq, ast.NotEq)):
                     res = isinstance(r, str) and l.attrs['char'] == r
@@ -214,7 +269,8 @@ def sign_rules(chk, m, rid):
     for label, expanded, raw, want, pushed in cases:
         h = TokenStreamHooks(m, TeX, expanded, raw if raw is not None else expanded)
         h.keep = lambda ev: ev[0] == 'call' and ev[1] in ('self.pushToken', 'self.pushTokens')
-        it = A.Interp(model=m, scope=fn, hooks=h, max_iter=len(expanded) + 2, exc_edges=False)
+        h.should_inline = A.private_only
+        it = A.Interp(model=m, scope=fn, hooks=h, max_iter=len(expanded) + 2, exc_edges=False, heap=True, precise_exc=True, inline=3)
         outs = it.run_function(fn, env={})
         chk.paths += len(outs)
         got = set()
@@ -247,7 +303,7 @@ def grouping_rules(chk, m, rid):
         h = TokenStreamHooks(m, TeX, stream, stream)
         h.keep = lambda ev: ev[0] == 'call' and ev[1] == 'self.pushToken'
         h.should_inline = A.private_only
-        it = A.Interp(model=m, scope=fn, hooks=h, max_iter=len(stream) + 2, exc_edges=False, inline=2)
+        it = A.Interp(model=m, scope=fn, hooks=h, max_iter=len(stream) + 2, exc_edges=False, inline=2, heap=True, precise_exc=True)
         outs = it.run_function(fn, env={'chars': '[]', 'expanded': False, 'parentNode': None})
         chk.paths += len(outs)
         got = set()
@@ -366,7 +422,7 @@ def number_rules(chk, m, rid):
         chk.analysed(fn)
         h = NumHooks(m, TeX, stream, fname)
         h.should_inline = A.private_only
-        it = A.Interp(model=m, scope=fn, hooks=h, max_iter=len(stream) + 2, exc_edges=False, inline=3)
+        it = A.Interp(model=m, scope=fn, hooks=h, max_iter=len(stream) + 2, exc_edges=False, inline=3, heap=True, precise_exc=True)
         outs = it.run_function(fn, env=dict(env))
         chk.paths += len(outs)
         got = set()
@@ -404,7 +460,8 @@ def number_rules(chk, m, rid):
             ('no digit at all gives the default', [ch('x', 11)], None, True, 'DEFAULT', ('x',))):
         h = TokenStreamHooks(m, TeX, expanded, raw if raw is not None else expanded)
         h.keep = lambda ev: ev[0] == 'call' and ev[1] in ('self.pushToken', 'self.pushTokens')
-        it = A.Interp(model=m, scope=seqfn, hooks=h, max_iter=len(expanded) + 2, exc_edges=False)
+        h.should_inline = A.private_only
+        it = A.Interp(model=m, scope=seqfn, hooks=h, max_iter=len(expanded) + 2, exc_edges=False, heap=True, precise_exc=True, inline=3)
         outs = it.run_function(seqfn, env={'chars': _string.digits, 'optspace': optspace, 'default': 'DEFAULT'})
         got = set()
         for kind, s2, v in outs:
@@ -437,7 +494,7 @@ def number_rules(chk, m, rid):
                 return False
         h = UH(m, TeX)
         h.should_inline = A.private_only
-        it = A.Interp(model=m, scope=fn, hooks=h, max_iter=2, exc_edges=False, inline=2)
+        it = A.Interp(model=m, scope=fn, hooks=h, max_iter=2, exc_edges=False, inline=2, heap=True, precise_exc=True)
         got = set()
         for kind, s2, v in it.run_function(fn, env={}):
             u = s2.env.get('__units')
